@@ -229,6 +229,8 @@ type EnumOpts struct {
 	// Params binds parameters (of the function, or of functions enclosing a closure) to the values a
 	// particular call site passes: the paths are rendered in that caller's terms.
 	Params map[*ssa.Parameter]ssa.Value
+	// Calls fixes the results of particular calls (a pure helper evaluated beforehand, one case at a time).
+	Calls map[*ssa.Call][]ssa.Value
 }
 
 type EnumResult struct {
@@ -665,7 +667,7 @@ func (w *World) enumPaths(fn *ssa.Function, o EnumOpts) EnumResult {
 			finish(nf, "exit", nil)
 		}
 	}
-	walk(start, nil, frame{phi: map[*ssa.Phi]ssa.Value{}, onPath: map[*ssa.BasicBlock]int{}, mem: map[*ssa.Alloc]ssa.Value{}, param: o.Params}, 0, nil)
+	walk(start, nil, frame{phi: map[*ssa.Phi]ssa.Value{}, onPath: map[*ssa.BasicBlock]int{}, mem: map[*ssa.Alloc]ssa.Value{}, param: o.Params, calls: o.Calls}, 0, nil)
 	return res
 }
 
